@@ -805,6 +805,9 @@ structure Mode where
   kStrIdx : Bool := false
   kObjKey : Bool := false
   kMinInt : Bool := false
+  /-- (D3) a string-key lookup on a decode value that is not an object yields null; `false` = the
+      plain behaviour (an error), used to state where (D3) matters -/
+  dNullKey : Bool := true
 deriving Repr, Inhabited, DecidableEq
 
 def Mode.real : Mode := { impl := true }
@@ -928,7 +931,8 @@ def indexKey (m : Mode) (v : Val) (k : Bytes) : Outcome Val :=
     | .obj kvs => match objGet k kvs with
       | some x => .ok x
       | none => baseKey k
-    | _ => baseKey k
+    | .null => baseKey k
+    | _ => if m.dNullKey then baseKey k else .err .expectedObject
   else match v with
   | .null => .ok .null
   | .obj kvs => .ok ((objGet k kvs).getD .null)
@@ -963,6 +967,14 @@ def indexInt (m : Mode) (v : Val) (i0 : Int) : Outcome Val :=
     (G.arr xs).index (if j < 0 then -2 else if j ≥ l then -1 else j)
   | _ => .err .expectedArray
 
+/-- the JSON array behind a value that gojq sees as a gojqx.Array -/
+def garrOf : Val → Option (List JV)
+  | .garr xs => some xs
+  | .dv (.scalar k sym _) => match wrapScalar k sym with
+    | .arr xs => some xs
+    | _ => none
+  | _ => none
+
 /-- func.go:1160-1263 funcSlice / slice / sliceString / sliceJQValue; `none` = open end -/
 def funcSlice (m : Mode) (v : Val) (s e : Option Int) : Outcome Val :=
   let bounds (l : Int) : Int × Int :=
@@ -973,6 +985,11 @@ def funcSlice (m : Mode) (v : Val) (s e : Option Int) : Outcome Val :=
       | some i => clampIndex (clampGoInt i) start l
       | none => l
     (start, stop)
+  -- the slice of a decoded JSON array (and of such a slice) is a bare gojqx.Array (`garr`), which the
+  -- specification treats as a plain array everywhere (`Mode.view`); it keeps the tag
+  match (if m.impl then none else garrOf v) with
+  | some xs => let (a, b) := bounds xs.length; (G.arr xs).slice a b
+  | none =>
   match m.view v with
   | .null => .ok .null
   | .arr xs =>
@@ -1193,6 +1210,9 @@ def Val.depthKvs : List (Bytes × Val) → Nat
   | (_, x) :: xs => max (Val.depth x) (Val.depthKvs xs)
 end
 
+/-- fuel for `..` / `paths`: every `.[]` step goes to a value whose tovalue is less deep -/
+def Val.fuel (v : Val) : Nat := v.toValue.depth
+
 /-! ### mini-jq -/
 
 inductive Op2 where
@@ -1265,7 +1285,7 @@ def Q.eval (m : Mode) (ff : UInt64 → Option Bytes) : Q → Val → Res
     | .ok ps => { outs := ps.map (·.2) }
     | .err e => { outs := [], err := some (.err e) }
     | .panic w => { outs := [], err := some (.panic w) }
-  | .recurse, v => { outs := descend m v.depth v }
+  | .recurse, v => { outs := descend m v.fuel v }
   | .pipe a b, v =>
     let ra := a.eval m ff v
     let rb := bindRes (b.eval m ff) ra.outs
@@ -1300,7 +1320,7 @@ def Q.eval (m : Mode) (ff : UInt64 → Option Bytes) : Q → Val → Res
   | .keys, v => .ofOutcome (funcKeys m v)
   | .length, v => .ofOutcome (funcLength m v)
   | .type, v => { outs := [.str (funcType m v)] }
-  | .paths, v => { outs := ((descendPaths m v.depth [] v).filter (fun p => !p.isEmpty)).map Val.arr }
+  | .paths, v => { outs := ((descendPaths m v.fuel [] v).filter (fun p => !p.isEmpty)).map Val.arr }
   | .toEntries, v => .ofOutcome (funcToEntries m v)
   | .tojson, v => .ofOutcome (funcToJSON m ff v)
   | .tostring, v => .ofOutcome (funcToString m ff v)
